@@ -43,6 +43,23 @@ type c14Case struct {
 	Sign  bool `json:"sign_authn_requests"`
 	Alg   int  `json:"alg"`
 	Keys  int  `json:"keys"`
+	// Frags, when set, makes the relay state the concatenation of these fragments of
+	// c14Fragments instead of c14Relay[Relay]
+	Frags []int `json:"fragments,omitempty"`
+}
+
+// c14Fragments are pieces with a meaning in a query string or in percent-encoding.
+var c14Fragments = []string{" ", "+", "&", "=", "%", "%41", "%2B", "#", "?", ";", "/", ":", "é", "日", "\n", "~", "*", "'", "\"", "SAMLRequest=", "&SigAlg=", "&Signature=", "x"}
+
+func (c c14Case) relay() string {
+	if len(c.Frags) == 0 {
+		return c14Relay[c.Relay]
+	}
+	var b strings.Builder
+	for _, f := range c.Frags {
+		b.WriteString(c14Fragments[f])
+	}
+	return b.String()
 }
 
 func c14SP(c c14Case) (*saml2.SAMLServiceProvider, string) {
@@ -97,7 +114,7 @@ func c14Exec(c c14Case) (keys []string, detail, class string) {
 	if len(keys) == 0 {
 		// a second URL from the SAME instance with another relay state and document
 		c2 := c
-		c2.Relay = (c.Relay + 5) % len(c14Relay)
+		c2.Relay, c2.Frags = (c.Relay+5)%len(c14Relay), nil
 		c2.Doc = (c.Doc + 1) % len(c14Docs)
 		k2, d2, _ := c14ExecOn(sp, signer, c2)
 		for _, k := range k2 {
@@ -113,7 +130,7 @@ func c14Exec(c c14Case) (keys []string, detail, class string) {
 		// signed: the next URL is signed with the new key
 		sp.SetSPSigningKeyStore(world.SetterKeyStore("KA"))
 		c3 := c
-		c3.Relay = (c.Relay + 3) % len(c14Relay)
+		c3.Relay, c3.Frags = (c.Relay+3)%len(c14Relay), nil
 		k3, d3, _ := c14ExecOn(sp, "KA", c3)
 		for _, k := range k3 {
 			keys = append(keys, strings.Replace(k, "C14/", "C14/after-signing-key-replaced-on-same-instance/", 1))
@@ -127,7 +144,7 @@ func c14Exec(c c14Case) (keys []string, detail, class string) {
 }
 
 func c14ExecOn(sp *saml2.SAMLServiceProvider, signer string, c c14Case) (keys []string, detail, class string) {
-	relay := c14Relay[c.Relay]
+	relay := c.relay()
 	fn := c14Funcs[c.Func]
 	var out string
 	var err error
@@ -338,7 +355,7 @@ func c14Replay(raw json.RawMessage) ([]string, string) {
 }
 
 func c14Run(r *mc.Run) {
-	r.Rule = "full product relay state(22) x document(4) x IdP URL(5: no query, one parameter, repeated and escaped parameters, escaped path, empty-valued and valueless parameters) x function(5) x SignAuthnRequests(2) x algorithm(4: unset, rsa-sha1, rsa-sha512, ecdsa-sha256) x key configuration(5, incl. a P-256 signing key with every algorithm setting); oracle = hand-split raw query (no net/url), strict percent-decoding, base64 + raw inflate, PKCS#1 v1.5 / ECDSA verification with the reported certificate over SAMLRequest=..[&RelayState=..]&SigAlg=.. assembled from the raw values as they appear; each case is followed on the same instance by a second URL (other relay state and document) and, for RSA signers, by a third one after the signing key was replaced through SetSPSigningKeyStore. non-trivial = a URL was produced and decoded; distinct = distinct case"
+	r.Rule = "full product relay state(22) x document(4) x IdP URL(5: no query, one parameter, repeated and escaped parameters, escaped path, empty-valued and valueless parameters) x function(5) x SignAuthnRequests(2) x algorithm(4: unset, rsa-sha1, rsa-sha512, ecdsa-sha256) x key configuration(5, incl. a P-256 signing key with every algorithm setting), plus relay states assembled from every sequence of 2 (quick) / 2-3 (thorough) of 23 query-syntax fragments through the two signing redirect builders; oracle = hand-split raw query (no net/url), strict percent-decoding, base64 + raw inflate, PKCS#1 v1.5 / ECDSA verification with the reported certificate over SAMLRequest=..[&RelayState=..]&SigAlg=.. assembled from the raw values as they appear; each case is followed on the same instance by a second URL (other relay state and document) and, for RSA signers, by a third one after the signing key was replaced through SetSPSigningKeyStore. non-trivial = a URL was produced and decoded; distinct = distinct case"
 	var cases []c14Case
 	mc.Enumerate(-1, r.Expired, func(ch *mc.Chooser) {
 		c := c14Case{}
@@ -354,6 +371,29 @@ func c14Run(r *mc.Run) {
 		}
 		cases = append(cases, c)
 	})
+	// relay states assembled from fragments: every sequence of 2 (quick) / 2-3 (thorough), through
+	// the two signing redirect builders
+	maxF := 2
+	if r.Thorough() {
+		maxF = 3
+	}
+	n0 := len(cases)
+	var rec func(prefix []int)
+	rec = func(prefix []int) {
+		if len(prefix) >= 2 {
+			for _, fn := range []int{2, 3} {
+				cases = append(cases, c14Case{Func: fn, Frags: append([]int(nil), prefix...), URL: len(prefix) % len(c14URLs), Sign: true, Doc: fn - 2})
+			}
+		}
+		if len(prefix) == maxF {
+			return
+		}
+		for f := range c14Fragments {
+			rec(append(prefix, f))
+		}
+	}
+	rec(nil)
+	r.Set("fragment_sequences", (len(cases)-n0)/2)
 	r.State(len(cases))
 	r.Par(len(cases), func(i int) {
 		c := cases[i]
